@@ -42,7 +42,8 @@ def plan(tier):
             "min_counters": {"programs": 2000, "accepted": 1000, "rejected": 100, "results_compared": 1000,
                              "the_programs": 100, "join_programs": 100, "path_programs": 200,
                              "accepted:join_rel": 50, "accepted:join_scalar_diff": 30, "kind:join_siblings": 30,
-                             "accepted:unselected_subclass": 20, "kind:join_unselected": 20, "kind:two_paths": 40}}
+                             "accepted:unselected_subclass": 20, "kind:join_unselected": 20, "kind:two_paths": 40, "accepted:path_and_unselected_subclass": 20, "kind:count_constraint": 20, "kind:truth_of_attribute": 20,
+                             "accepted:nullable_columns": 20, "kind:join_below_and_below_or": 20}}
 
 
 def coverage_extra(counters, evaluations):
@@ -78,13 +79,17 @@ def gen_world(rng):
     n_leaf = rng.randint(3, 10)
     leaves = [{"n": rng.randint(0, 4), "s": rng.choice(["ab", "abc", "b", "xa", "", "a b", "A_b", "a%b", "Ab"]),
                "o": rng.choice([None, 0.0, 1.0, 2.5, -1.0]), "k": rng.randint(0, 2),
-               "labels": rng.sample(["a", "ab", "b", "c d", "A"], rng.choice([0, 1, 1, 2, 3]))} for _ in range(n_leaf)]
+               "labels": rng.sample(["a", "ab", "b", "c d", "A"], rng.choice([0, 1, 1, 2, 3])),
+               "p": rng.choice([None, None, 0.0, 1.0])} for _ in range(n_leaf)]
     other_all = rng.random() < 0.5
     holders = [{"sub": rng.choice([False, False, False, True, True, "side"]), "leaf": rng.randrange(n_leaf), "other": rng.randrange(n_leaf) if (other_all or rng.random() < 0.5) else None,
                 "many": [rng.randrange(n_leaf) for _ in range(rng.randint(0, 3))], "extra": rng.randint(0, 4), "bonus": rng.randint(0, 3)}
                for _ in range(rng.randint(3, 8))]
     tags = [{"leaf": rng.randrange(n_leaf), "w": rng.randint(0, 4)} for _ in range(rng.randint(2, 6))]
-    tops = [{"holder": rng.randrange(len(holders)), "backup": rng.randrange(len(holders)), "rank": rng.randint(0, 3)} for _ in range(rng.randint(2, 7))]
+    subs = [i for i, h in enumerate(holders) if h["sub"] is True]
+    spare_all = rng.random() < 0.4
+    tops = [{"holder": rng.randrange(len(holders)), "backup": rng.randrange(len(holders)), "rank": rng.randint(0, 3),
+             "spare": rng.choice(subs) if subs and (spare_all or rng.random() < 0.5) else None} for _ in range(rng.randint(2, 7))]
     return {"leaves": leaves, "holders": holders, "tags": tags, "tops": tops, "other_all": other_all and all(h["other"] is not None for h in holders)}
 
 
@@ -146,8 +151,10 @@ def gen(rng, tier, ctx):
     world = gen_world(rng)
     kind = rng.choices(["single", "single", "single", "join_rel", "join_scalar_diff", "join_scalar_same", "join_rel_same",
                         "membership_rel", "var_eq_rel", "reject", "join_in_or", "join_twice", "value_var", "set_of", "select_attr",
-                        "odd_collection", "opt_in_or", "join_siblings", "unselected_subclass", "join_unselected", "two_paths"],
-                       [30, 20, 10, 8, 6, 4, 3, 3, 3, 6, 3, 3, 3, 2, 3, 3, 4, 4, 4, 3, 5])[0]
+                        "odd_collection", "opt_in_or", "join_siblings", "unselected_subclass", "join_unselected", "two_paths",
+                        "path_and_unselected_subclass", "nullable_columns", "join_below_and_below_or", "truth_of_attribute", "count_constraint",
+                        "chain_through_index", "collection_as_value", "join_over_longer_chain"],
+                       [30, 20, 10, 8, 6, 4, 3, 3, 3, 6, 3, 3, 3, 2, 3, 3, 5, 4, 4, 3, 5, 4, 4, 3, 4, 4, 2, 2, 3])[0]
     cls = rng.choice(["Leaf", "Holder", "SubHolder", "SideHolder", "Tag", "Top", "Top"])
     q = {"kind": kind, "quant": "the" if rng.random() < 0.12 else "an", "root": cls, "vars": {"x": cls}}
     if kind == "single":
@@ -200,6 +207,43 @@ def gen(rng, tier, ctx):
         q["cond"] = ["cmp", rng.choice(CMP), ["path", "x", "w"], ["path", "y", "extra"]]
         if rng.random() < 0.4:
             q["cond"] = ["and", q["cond"], gen_atom(rng, "x", "Tag", world)]
+    elif kind == "path_and_unselected_subclass":
+        # an attribute path of the selected variable joins the table of a sub-class (under an alias); another variable
+        # ranges over that sub-class: it is still restricted to it
+        q["root"], q["vars"] = "Top", {"x": "Top", "y": "SubHolder"}
+        q["cond"] = ["and", ["or", ["in", ["path", "x", "uid"], ["lit", "TOPS_WITHOUT_SPARE"]], ["cmp", ">=", ["path", "x", "spare.bonus"], ["lit", 0]]],
+                     ["cmp", rng.choice(CMP), ["path", "x", "rank"], ["path", "y", "extra"]]]
+    elif kind == "nullable_columns":
+        # two columns that may both be NULL: None == None holds in memory
+        q["root"], q["vars"] = "Leaf", {"x": "Leaf"}
+        q["cond"] = ["cmp", rng.choice(["==", "==", "!="]), ["path", "x", "o"], ["path", "x", "p"]]
+    elif kind == "join_below_and_below_or":
+        # an equality join inside a conjunction that is one side of a disjunction
+        q["root"], q["vars"] = "Holder", {"x": "Holder", "y": "Tag"}
+        j = ["and", ["cmp", "==", ["path", "x", "leaf"], ["path", "y", "leaf"]], gen_atom(rng, "y", "Tag", world)]
+        a = gen_atom(rng, "x", "Holder", world)
+        q["cond"] = ["or", j, a] if rng.random() < 0.5 else ["or", a, j]
+    elif kind == "truth_of_attribute":
+        # an attribute as a condition: its truth value
+        q["root"], q["vars"] = "Leaf", {"x": "Leaf"}
+        q["cond"] = ["truth", ["path", "x", rng.choice(["s", "s", "n", "labels", "o"])]]
+        if rng.random() < 0.5:
+            q["cond"] = ["and", q["cond"], gen_atom(rng, "x", "Leaf", world)]
+    elif kind == "count_constraint":
+        # an(...) with a constraint on the number of results
+        q["cond"] = gen_cond(rng, "x", cls, world, 1)
+        q["quant"] = "an"
+        q["quantification"] = [rng.choice(["Exactly", "AtMost", "AtLeast"]), rng.randint(0, 3)]
+    elif kind == "chain_through_index":
+        # something else than an attribute in the middle of a chain
+        q["root"], q["vars"] = "Holder", {"x": "Holder"}
+        q["cond"] = ["cmp", rng.choice(CMP), ["ipath", "x", "many", 0, "n"], ["lit", rng.randint(0, 4)]]
+    elif kind == "collection_as_value":
+        q["root"], q["vars"] = "Holder", {"x": "Holder"}
+        q["cond"] = ["in", ["path", "x", "leaf"], ["path", "x", "many"]]
+    elif kind == "join_over_longer_chain":
+        q["root"], q["vars"] = "Top", {"x": "Top", "y": "Tag"}
+        q["cond"] = ["cmp", "==", ["path", "x", "holder.leaf"], ["path", "y", "leaf"]]
     elif kind == "join_unselected":
         # a join between two variables of which neither is the selected one
         q["root"], q["vars"] = "Top", {"x": "Top", "y": "Holder", "z": "Tag"}
@@ -234,7 +278,13 @@ def gen(rng, tier, ctx):
     elif kind == "opt_in_or":
         # a path across an Optional reference as the right side of an or_ whose left side holds for every holder that
         # has no such reference: the rows without the reference have to stay
-        if rng.random() < 0.4:
+        if rng.random() < 0.3:
+            # the Optional reference is the FIRST hop of the path, a reference that is always there follows it
+            q["root"], q["vars"], q["quant"] = "Top", {"x": "Top"}, "an"
+            q["cond"] = ["or", ["in", ["path", "x", "uid"], ["lit", "TOPS_WITHOUT_SPARE"]],
+                         ["cmp", rng.choice(CMP), ["path", "x", "spare.leaf." + rng.choice("nk")], ["lit", rng.randint(0, 4)]]]
+            q["hop_after_optional"] = True
+        elif rng.random() < 0.4:
             # the Optional reference is the SECOND hop of the path
             q["root"], q["vars"], q["quant"] = "Top", {"x": "Top"}, "an"
             q["cond"] = ["or", ["in", ["path", "x", "uid"], ["lit", "TOPS_WHOSE_HOLDER_HAS_NO_OTHER"]],
@@ -322,7 +372,8 @@ def make_objects(world, sm):
                   many=[leaves[i] for i in h["many"]], extra=h["extra"])
         holders.append(sm.SideHolder(side=h["bonus"], **kw) if h["sub"] == "side" else sm.SubHolder(bonus=h["bonus"], **kw) if h["sub"] else sm.Holder(**kw))
     tags = [sm.Tag(uid=next(uid), leaf=leaves[t["leaf"]], w=t["w"]) for t in world["tags"]]
-    tops = [sm.Top(uid=next(uid), holder=holders[t["holder"]], backup=holders[t.get("backup", t["holder"])], rank=t["rank"]) for t in world["tops"]]
+    tops = [sm.Top(uid=next(uid), holder=holders[t["holder"]], backup=holders[t.get("backup", t["holder"])], rank=t["rank"],
+                   spare=holders[t["spare"]] if t.get("spare") is not None else None) for t in world["tops"]]
     return {"leaves": leaves, "holders": holders, "tags": tags, "tops": tops}
 
 
@@ -343,12 +394,16 @@ def build_query(q, objs, sm):
             return [h.uid for h in objs["holders"] if h.other is None]
         if t[0] == "lit" and t[1] == "TOPS_WHOSE_HOLDER_HAS_NO_OTHER":
             return [t_.uid for t_ in objs["tops"] if t_.holder.other is None]
+        if t[0] == "lit" and t[1] == "TOPS_WITHOUT_SPARE":
+            return [t_.uid for t_ in objs["tops"] if t_.spare is None]
         if t[0] == "lit":
             if q.get("collection") in ("set", "tuple") and isinstance(t[1], list):
                 return set(t[1]) if q["collection"] == "set" else tuple(t[1])
             return t[1]
         if t[0] == "obj":
             return objs[t[1]][t[2]]
+        if t[0] == "ipath":
+            return getattr(getattr(V[t[1]], t[2])[t[3]], t[4])
         e = V[t[1]]
         if t[2]:
             for part in t[2].split("."):
@@ -370,6 +425,8 @@ def build_query(q, objs, sm):
             return E.and_(bc(c[1]), bc(c[2]))
         if k == "or":
             return E.or_(bc(c[1]), bc(c[2]))
+        if k == "truth":
+            return bt(c[1])
         raise ValueError(c)
 
     cond = bc(q["cond"])
@@ -397,6 +454,9 @@ def build_query(q, objs, sm):
         desc = E.entity(getattr(x, q["select"]), cond)
     else:
         desc = E.entity(x, cond)
+    if q.get("quantification"):
+        from krrood.entity_query_language import result_quantification_constraint as RQ
+        return an(desc, quantification=getattr(RQ, q["quantification"][0])(q["quantification"][1]))
     return (the if q["quant"] == "the" else an)(desc)
 
 
@@ -405,6 +465,8 @@ def skeleton(c):
         return c[0] + "(" + skeleton(c[1]) + "," + skeleton(c[2]) + ")"
     if c[0] == "cmp":
         return f"{sk_t(c[2])}{c[1]}{sk_t(c[3])}"
+    if c[0] == "truth":
+        return "truth(" + sk_t(c[1]) + ")"
     return c[0] + "(" + sk_t(c[1]) + "," + sk_t(c[2]) + ")"
 
 
@@ -413,6 +475,8 @@ def sk_t(t):
         return "#" + type(t[1]).__name__
     if t[0] == "obj":
         return "@obj"
+    if t[0] == "ipath":
+        return f"{t[1]}.{t[2]}[{t[3]}].{t[4]}"
     return f"{t[1]}.{t[2]}"
 
 
@@ -452,6 +516,8 @@ def run(case, ctx):
             mem = {res.uid} if q["quant"] == "the" else {o.uid for o in res}
         except (F.NoSolutionFound, F.MultipleSolutionFound) as e:
             mem, mem_exc = None, type(e).__name__
+        except (F.LessThanExpectedNumberOfSolutions, F.GreaterThanExpectedNumberOfSolutions) as e:
+            mem, mem_exc = None, type(e).__name__
         except Exception as e:
             ctx_reset()
             C["memory_evaluation_raises:" + type(e).__name__] += 1
@@ -489,7 +555,8 @@ def run(case, ctx):
             C["accepted_with_untranslatable_construct"] += 1
         C["results_compared"] += 1
         problems = []
-        pairs = {"NoSolutionFound": "NoResultFound", "MultipleSolutionFound": "MultipleResultsFound"}
+        pairs = {"NoSolutionFound": "NoResultFound", "MultipleSolutionFound": "MultipleResultsFound",
+                 "LessThanExpectedNumberOfSolutions": "<no counterpart>", "GreaterThanExpectedNumberOfSolutions": "<no counterpart>"}
         if (mem_exc is None) != (sql_exc is None) or (mem_exc and pairs[mem_exc] != sql_exc):
             problems.append(f"the(): in memory {mem_exc or sorted(mem)}, in SQL {sql_exc or sorted(sql)}")
         elif mem_exc is None and mem != sql:
